@@ -56,8 +56,7 @@ def evaluate(ctx, checks):
     for si, out in enumerate(outs):
         for idx in coq.parse_nat_list(coq.parse_evals(out)[0]):
             stream, _, desc, rep = checks[si * SH + idx]
-            ctx.mark_broken(f'correspondence:{stream}', desc)
-            ctx.violation(rep.pop('signature'), desc, dict(kind=stream, **rep))
+            ctx.disagree(f'correspondence:{stream}', desc, rep.pop('signature'), desc, dict(kind=stream, **rep))
 
 
 ALL = gates.CORE_FAMILIES + gates.QUDIT_FAMILIES + ['Sycamore']
